@@ -36,7 +36,8 @@ def get_api(
 
     walkable_files = []
     package_paths = []
-    for file_path in root.glob(pattern="./**/*.py"):
+    # The files are sorted, since the order in which the file system lists them is not fixed
+    for file_path in sorted(root.glob(pattern="./**/*.py")):
         # Check if the current path is a test directory
         if not is_test_run and ("test" in file_path.parts or "tests" in file_path.parts or "docs" in file_path.parts):
             log_msg = f"Skipping test file in {file_path}"
